@@ -1755,6 +1755,27 @@ s19_cb(void *arg)
 		}
 	}
 }
+// the same receives through the synchronous calls (the aio lives on the caller's stack and is gone as soon as
+// the call returns - while the batch that completed it may still be walking its members)
+static void *
+s19_blocking(void *a)
+{
+	int      i = (int) (intptr_t) a;
+	nng_msg *m = NULL;
+	int      rv = S19[i].isock ? nng_recvmsg(S19[i].s, &m, 0) : nng_ctx_recvmsg(S19[i].ctx, &m, 0);
+	S19[i].ncb++;
+	if (rv == 0) {
+		if (nng_msg_len(m) != 2 || ((char *) nng_msg_body(m))[1] != '0' + S19[i].nok)
+			vs_fail("C02:message-conservation", "blocking receive %d got '%.2s', expected m%d", i,
+			    (char *) nng_msg_body(m), S19[i].nok);
+		S19[i].nok++;
+		nng_msg_free(m);
+		// use the stack the call has just left
+		volatile char scratch[512];
+		memset((void *) scratch, 0x5a, sizeof(scratch));
+	}
+	return NULL;
+}
 static void *
 s19_canceller(void *a)
 {
@@ -1765,8 +1786,9 @@ static void
 run_s19(void *arg)
 {
 	(void) arg;
-	int resub  = vs_choose(VK_ENV, 2);
-	int victim = vs_choose(VK_ENV, 5); // 4 = nobody is cancelled
+	int blocking = (int) (intptr_t) arg;
+	int resub  = blocking ? 0 : vs_choose(VK_ENV, 2);
+	int victim = blocking ? 4 : vs_choose(VK_ENV, 5); // 4 = nobody is cancelled
 	vh_init(0);
 	nng_socket pub, sub;
 	VH_OK(nng_pub0_open(&pub));
@@ -1787,8 +1809,16 @@ run_s19(void *arg)
 		nng_aio_set_timeout(S19[i].aio, 200);
 	}
 	vs_settle();
-	for (int i = 0; i < 4; i++)
-		s19_submit(i);
+	pthread_t bt[4];
+	if (blocking) {
+		VH_OK(nng_socket_set_ms(sub, NNG_OPT_RECVTIMEO, 200));
+		for (int i = 0; i < 4; i++) {
+			S19[i].nsub = 1;
+			pthread_create(&bt[i], NULL, s19_blocking, (void *) (intptr_t) i);
+		}
+	} else
+		for (int i = 0; i < 4; i++)
+			s19_submit(i);
 	vs_settle();
 	pthread_t th;
 	vs_window(1);
@@ -1798,6 +1828,9 @@ run_s19(void *arg)
 		vs_fail("harness:s19", "publish refused");
 	if (victim < 4)
 		pthread_join(th, NULL);
+	if (blocking)
+		for (int i = 0; i < 4; i++)
+			pthread_join(bt[i], NULL);
 	vs_window(0);
 	vs_settle();
 	if (vh_send_nb(pub, "m1", 2) != 0)
@@ -1949,6 +1982,7 @@ main(int argc, char **argv)
 	explore("S8-stream-idle-cancel", run_s8, (void *) 2, p, t, sw, tot);
 	explore("S17-http-transact-cancel", run_s17, NULL, 1, 1, 1, T ? 2 : 1);
 	explore("S19-batch-completion-sub", run_s19, NULL, 1, 1, 1, T ? 2 : 1);
+	explore("S19b-batch-completion-sub-blocking-calls", run_s19, (void *) 1, 1, 1, 1, T ? 2 : 1);
 	explore("S18-reuse-immediate", run_s18, (void *) (intptr_t) (T ? 3 : 2), 1, 1, 1, 1);
 	explore("S18-reuse-immediate-cancel-everywhere", run_s18, (void *) (intptr_t) (0x100 | 2), 1, 1, 1,
 	    T ? 2 : 1);
